@@ -465,7 +465,8 @@ void executeRun(const Desc& d, Obs& o) {
             }
         }
         reg.setGroupFilters(gfl); reg.setNameFilters(nfl);
-        if (c.runIgnored) reg.setRunIgnored();
+        int lateRi = (int)d.pi("late_ri", 0);
+        if (c.runIgnored && lateRi == 0) reg.setRunIgnored();
         UtestShell::setRethrowExceptions(false);
         RecConsole* out = new (::malloc(sizeof(RecConsole))) RecConsole(); RS.primaryOutput = out;
         if (c.verbose == 1) out->verbose(TestOutput::level_verbose); if (c.verbose == 2) out->verbose(TestOutput::level_veryVerbose); if (c.color) out->color();
@@ -473,6 +474,7 @@ void executeRun(const Desc& d, Obs& o) {
         size_t seedForShuffle = c.shuffle == 1 ? (size_t)c.shuffleSeed : (size_t)(unsigned)simTimeInMillis(); if (seedForShuffle == 0) seedForShuffle = 1;
         int reps = c.repeat > 0 ? c.repeat : 1; size_t failedTests = 0, failedRuns = 0;
         for (int rp = 0; rp < reps; rp++) {
+            if (c.runIgnored && lateRi > 0 && rp == lateRi) { reg.setRunIgnored(); fired("run_ignored_switched_on_between_repetitions"); }
             if (c.shuffle) reg.shuffleTests(seedForShuffle);
             out->printTestRun((size_t)rp + 1, (size_t)reps);
             TestResult tr(*out); reg.runAllTests(tr);
